@@ -1,4 +1,5 @@
 import FmpRpc.Proofs.TransportInv
+import FmpRpc.Proofs.TransportInvBK
 /-
   C07 — only framing / decoding violations are fatal, and the lifecycle
   observers (Done, IsConnected, Err) agree.
@@ -18,13 +19,16 @@ def stopClosedCount (h : List Evt) : Nat :=
     that happened). -/
 theorem done_once (s : St) (hr : Reachable s) :
     stopClosedCount s.hist ≤ 1 ∧ (s.stopCh = true ↔ stopClosedCount s.hist = 1) := by
-  sorry
+  have hi := KInv_reachable s hr
+  have hc : stopClosedCount s.hist = if s.stopCh then 1 else 0 := hi.cnt
+  rw [hc]
+  cases s.stopCh <;> simp
 
 /-- The connected flag turns false when the done channel closes and never
     becomes true again. -/
 theorem connected_monotone (s s' : St) (a : Act) (hs : step s a = some s') (h : s.stopCh = true) :
     s'.stopCh = true := by
-  sorry
+  exact stopCh_mono s s' a hs h
 
 /-- **Err is nil before the done channel closes and one fixed non-nil value
     afterwards** — also when the transport was closed locally (the error is
@@ -33,7 +37,12 @@ theorem err_stable (s : St) (hr : Reachable s) :
     (s.stopCh = false → errAccessor s = none) ∧
     (s.stopCh = true → ∃ e, s.stopErr = some e) ∧
     (∀ s' a, step s a = some s' → s.stopCh = true → s'.stopErr = s.stopErr) := by
-  sorry
+  have hi := KInv_reachable s hr
+  refine ⟨fun h => by simp [errAccessor, h], fun h => ?_, fun s' a hs h => ?_⟩
+  · have h1 : 2 ≤ lvl s := hi.fStop.mp h
+    have h2 : s.stopErr.isSome = true := hi.fErr.mpr (by omega)
+    exact Option.isSome_iff_exists.mp h2
+  · exact stopErr_stable s s' a hi hs h
 
 /-- A response for a seqno that is in no table is ignored: after the lookup
     the endpoint is exactly as before the frame arrived, history aside. -/
@@ -41,14 +50,32 @@ theorem stray_response_ignored (s s1 s2 : St) (q : Int) (p : Nat) (ae : Bool)
     (h0 : s.pending q = none)
     (h1 : step s (.rDeliver (.resp q p ae)) = some s1) (h2 : step s1 .rLookup = some s2) :
     s2 = { s with hist := s2.hist } := by
-  sorry
+  simp only [step] at h1
+  split at h1
+  · injection h1 with h1; subst h1
+    simp only [step, log, h0] at h2
+    injection h2 with h2; subst h2
+    rename_i hr
+    cases s; simp_all
+  · cases h1
 
 /-- A cancellation for a seqno with no registered task changes nothing but
     the history. -/
 theorem stray_cancel_ignored (s s1 s2 : St) (q : Int) (h0 : s.tasks q = none)
     (h1 : step s (.rDeliver (.cancel q)) = some s1) (h2 : step s1 .rCanSend = some s2) :
     s2 = { s with hist := s2.hist, tasks := s2.tasks } ∧ ∀ k, s2.tasks k = s.tasks k := by
-  sorry
+  simp only [step] at h1
+  split at h1
+  · injection h1 with h1; subst h1
+    rename_i hr
+    simp only [step, log, h0] at h2
+    split at h2
+    · injection h2 with h2; subst h2
+      refine ⟨?_, ?_⟩
+      · cases s; simp_all [setTask]
+      · intro k; simp only [setTask]; split <;> simp_all
+    · cases h2
+  · cases h1
 
 /-- A call naming an unregistered protocol or method is answered with one
     reply carrying the same seqno; no handler is invoked, no task entry made;
@@ -58,17 +85,31 @@ theorem notfound_replied (s s1 s2 : St) (q : Int) (arg : Nat)
     (s2.sends s.nextSend).kind = .reply ∧ (s2.sends s.nextSend).seq = q ∧
     (s2.sends s.nextSend).st = .waiting ∧ s2.nextHandler = s.nextHandler ∧ s2.tasks = s.tasks ∧
     s2.r = .nfHand s.nextSend := by
-  sorry
+  simp only [step] at h1
+  split at h1
+  · injection h1 with h1; subst h1
+    simp only [step, log, newSend, setSend] at h2
+    injection h2 with h2; subst h2
+    simp
+  · cases h1
 
 theorem notfound_notify_dropped (s s1 : St) (arg : Nat)
     (h1 : step s (.rDeliver (.notify false arg)) = some s1) :
     s1 = { s with hist := s1.hist } := by
-  sorry
+  simp only [step] at h1
+  split at h1
+  · injection h1 with h1; subst h1
+    cases s; simp [log]
+  · cases h1
 
 /-- Any other framing or decoding violation, read error or end of stream
     makes the receive loop close the transport. -/
 theorem fatal_closes (s s' : St) (h : step s .rFatal = some s') :
     s'.r = .closing ∧ (s'.closers 0).pc = .enter := by
-  sorry
+  simp only [step] at h
+  split at h
+  · injection h with h; subst h
+    simp [setCloser]
+  · cases h
 
 end FmpRpc.C07
